@@ -290,7 +290,8 @@ class Cache:
             ):
                 return "left / full join with a table containing a constant column"
 
-            if any(self.cols[uid].ftype() == Ftype.WINDOW for uid in self.uuid_to_name.keys()):
+            # (also hidden columns can be referenced after the join)
+            if any(col.ftype() == Ftype.WINDOW for col in self.cols.values()):
                 return "join with a table containing window function expression"
 
             if any(
